@@ -105,9 +105,21 @@ func applyChol(recv, orig *mat.Cholesky, o opRec, xrep string) applied {
 	r.out = core.Call(func() {
 		switch o.Op {
 		case "Factorize":
-			r.hasOK, r.ok = true, recv.Factorize(symOf(o.A))
+			// operand kinds: SymDense, full-band SymBandDense, Symmetric interface only
+			var a mat.Symmetric = symOf(o.A)
+			switch {
+			case xrep == "inc2" && len(o.A) > 0:
+				a = bandOf(o.A, len(o.A)-1)
+			case xrep == "basic":
+				a = basicSym{symOf(o.A)}
+			}
+			r.hasOK, r.ok = true, recv.Factorize(a)
 		case "SetFromU":
-			recv.SetFromU(triUpperOf(o.U))
+			var t mat.Triangular = triUpperOf(o.U)
+			if xrep == "basic" {
+				t = basicTri{triUpperOf(o.U)}
+			}
+			recv.SetFromU(t)
 		case "SymRankOne":
 			r.hasOK, r.ok = true, recv.SymRankOne(orig, float64(o.Alpha), vecOf(o.V, xrep))
 		case "ExtendVecSym":
@@ -723,7 +735,7 @@ func replayChol(in *core.Lines, args []string, seed int64, sum *core.Summary) er
 			}
 			c := &cholCase{K: "h", Hist: withLoop(e.from, base), Op: e.op, Recv: m, XRep: "vec", Out: e.out,
 				S: obs[e.from], T: obs[e.to], UnitExp: hdr.UnitExp, CondSlackExp: hdr.CondSlackExp}
-			if usesVec(e.op.Op) {
+			if usesVec(e.op.Op) || e.op.Op == "Factorize" || e.op.Op == "SetFromU" {
 				c.XRep = xreps[cnt%len(xreps)]
 			}
 			cnt++
